@@ -105,6 +105,26 @@ def content_term(codes, ent, ns, length):
         vlib.coq_bool(bool(ent.get("deleted"))), ps, rs, length)
 
 
+def items_of(codes, v, ns):
+    cv = canon_value(v, ns)
+    if isinstance(cv, list):
+        return True, [codes.vcode(x) for x in cv]
+    return False, [codes.vcode(cv)]
+
+
+def value_table(codes, case):
+    """value code -> (is a list, item codes) for every property value posted in the case"""
+    tbl = {}
+    for op in case["ops"]:
+        groups = [op.get("ents") or [], op.get("second") or []] + [s_.get("ents") or [] for s_ in (op.get("sets") or [])]
+        for g in groups:
+            for e in g:
+                for v in (e.get("props") or {}).values():
+                    tbl[codes.vcode(canon_value(v, None))] = items_of(codes, v, None)
+    return vlib.coq_list(["(%d, {| rv_arr := %s; rv_tgts := %s |})" % (k, vlib.coq_bool(a), vlib.coq_list([vlib.zlit(t) for t in tg]))
+                          for k, (a, tg) in sorted(tbl.items())])
+
+
 def ent_term(codes, ent, length):
     return "{| e_id := %d; e_c := %s |}" % (codes.ucode(expand(ent["id"])), content_term(codes, ent, None, length))
 
@@ -228,7 +248,15 @@ def case_term(codes, case, obs):
             rs = vlib.coq_list(["(%d, {| rv_arr := %s; rv_tgts := %s |})" % (kk, vlib.coq_bool(a), vlib.coq_list([vlib.zlit(t) for t in tg]))
                                 for kk, a, tg in refs])
             scope = vlib.coq_list([str(ds_code(case, d)) for d in op.get("datasets", [])])
-            terms.append("SGetM %d %s %s" % (codes.ucode(expand(op["id"])), scope, rs))
+            # merged properties (Store.mergeInto): every value as (is a list, item codes)
+            mprops = []
+            if oo.get("found"):
+                for kk, v in (oo["ents"][0].get("props") or {}).items():
+                    mprops.append((codes.ucode(expand(kk, ns)),) + items_of(codes, v, ns))
+            mprops.sort()
+            ps = vlib.coq_list(["(%d, {| rv_arr := %s; rv_tgts := %s |})" % (kk, vlib.coq_bool(a), vlib.coq_list([vlib.zlit(t) for t in tg]))
+                                for kk, a, tg in mprops])
+            terms.append("SGetM %d %s %s %s %s" % (codes.ucode(expand(op["id"])), scope, rs, value_table(codes, case), ps))
         elif k == "get":
             at = "None"
             if op.get("at"):
